@@ -1,6 +1,7 @@
 package main
 
 import (
+	"golang.org/x/tools/go/ssa"
 	"encoding/json"
 	"flag"
 	"fmt"
@@ -31,6 +32,7 @@ type PropSpecFile struct {
 	SweepInline      int      `json:"sweep_inline"`  // inline depth for swept functions
 	SweepBudget      int      `json:"sweep_budget"`  // inlined-instruction budget for swept functions
 	SweepQuickPrefix []string `json:"sweep_quick_prefixes"` // quick tier: only functions with these key prefixes (empty = all)
+	IncludeClosures  bool     `json:"include_closures"` // also check the anonymous functions (closures, spawned goroutine bodies) of the listed functions
 	OnlyNames        []string `json:"only_names"` // when set: only obligations whose name contains one of these (and canaries)
 	SweepSkipLabels  []string `json:"sweep_skip_pre_labels"` // swept functions: call-site preconditions with these clause labels belong to other properties
 }
@@ -204,6 +206,24 @@ func checkProperty(dir string, P *Program, C *Contracts, id, tier string, verbos
 		if !seen[k] {
 			seen[k] = true
 			jobs = append(jobs, job{k, true, false})
+		}
+	}
+	if spec.IncludeClosures {
+		var addAnon func(fn *ssa.Function)
+		addAnon = func(fn *ssa.Function) {
+			for _, an := range fn.AnonFuncs {
+				k := funcKey(an)
+				if P.Funcs[k] != nil && !seen[k] {
+					seen[k] = true
+					jobs = append(jobs, job{k, false, false})
+				}
+				addAnon(an)
+			}
+		}
+		for _, k := range spec.Functions {
+			if fn := P.Funcs[k]; fn != nil {
+				addAnon(fn)
+			}
 		}
 	}
 	if spec.SafetySweep {
